@@ -13,12 +13,14 @@ from .. import simfs
 
 DEFAULT = simfs.DEFAULT_FMT
 FORMATS = [DEFAULT, "4Y-2M-2D 2h:2m:2s", "4Y-2M-2DT2h:2m:2sZ",
-           "2D/2M/4Y 2h:2m:2s.3z", "4Y2M2D2h2m2s", "2h:2m:2s 2D-2M-4Y"]
+           "2D/2M/4Y 2h:2m:2s.3z", "4Y2M2D2h2m2s", "2h:2m:2s 2D-2M-4Y", "2M/2D/4Y 2h:2m:2s"]
 GPX_FMT = "4Y-2M-2DT2h:2m:2sZ"
 GPX_OK_READ = (GPX_FMT, "4Y-2M-2DT2h:2m:2s")
 SPECIAL_T = [(2020, 2, 29, 23, 59, 59), (2019, 12, 31, 23, 59, 59), (2020, 1, 1, 0, 0, 0),
              (1970, 1, 1, 0, 0, 0), (2099, 12, 31, 0, 0, 0), (2001, 2, 28, 12, 0, 1),
-             (2024, 3, 31, 0, 0, 59), (2000, 2, 29, 0, 0, 0), (2018, 12, 31, 23, 46, 40)]
+             (2024, 3, 31, 0, 0, 59), (2000, 2, 29, 0, 0, 0), (2018, 12, 31, 23, 46, 40),
+             # pairs that print to the same text under day/month and month/day formats
+             (2021, 3, 4, 10, 0, 0), (2021, 4, 3, 10, 0, 0), (2020, 1, 2, 0, 0, 0), (2020, 2, 1, 0, 0, 0)]
 KIND_CLASS = {"ENU": "ENUCoords", "GEO": "GeoCoords", "ECEF": "ECEFCoords"}
 WRITE_FAULTS = ("open_error", "write_error", "close_error", "interrupt", "crash")
 READ_FAULTS = ("open_error", "read_error", "interrupt")
